@@ -210,3 +210,128 @@ def tr_fn_body(fn, struct_name):
 
     body = tr_block(fn['body'], cx, final)
     return '(%s %s)' % (kind.get('k', 'BValue'), body)
+
+
+# ---- bitenum expansions ----------------------------------------------------------------------------
+
+def enum_ty(t):
+    """type string -> Coq term of type option (N*N) * N, or None"""
+    m = re.fullmatch(r'arbitrary_int::UInt<u(\d+),(\d+)(usize)?>', t or '')
+    if m:
+        return '(Some (%s, %s), 0)' % (m.group(1), m.group(2))
+    m = re.fullmatch(r'u(\d+)', t or '')
+    if m:
+        return '(None, %s)' % m.group(1)
+    return None
+
+
+def int_lit(e):
+    if e and e.get('e') == 'lit' and e.get('kind') == 'int' and e.get('suffix') == '':
+        return int(e['value'])
+    return None
+
+
+def coq_enum_prog(name, xj):
+    bad = '(mkEnumProg %s false [] false None 0 (None, 0) false (None, 0) None false [] DefOther)' % cstr(name)
+    if not xj.get('ok'):
+        return bad
+    enum = None
+    fns = {}
+    for it in xj['items']:
+        if it['kind'] == 'enum' and it['name'] == name:
+            enum = it
+        if it['kind'] == 'impl' and it['self_ty'] == name and it['trait'] is None:
+            for fi in it['items']:
+                if fi['kind'] == 'fn':
+                    fns[fi['name']] = fi
+    if enum is None:
+        return bad
+    derive = any(a['path'] == 'derive' and re.sub(r'\s', '', a['tokens']) == 'derive(Copy,Clone)' for a in enum['attrs'])
+    vs = []
+    for v in enum['variants']:
+        n = int_lit(v.get('discr'))
+        cfg = any(a['path'] == 'cfg' for a in v['attrs'])
+        vs.append('(%s, %s, %s)' % (cstr(v['name']), 'None' if n is None else '(Some %d)' % n, 'true' if cfg else 'false'))
+    # raw_value
+    raw_ok, ctor, cast, raw_ret = False, 'None', 0, '(None, 0)'
+    f = fns.get('raw_value')
+    if f and f['vis'] == 'pub' and f['const'] and not f['unsafe'] and f['params'] == [{'self': 'value'}] \
+            and len(f['body']['stmts']) == 1 and f['body']['stmts'][0]['s'] == 'expr' and not f['body']['stmts'][0]['semi']:
+        e = f['body']['stmts'][0]['e']
+        rt = enum_ty(f['ret'])
+        inner = e
+        if e.get('e') == 'call' and e['f'].get('e') == 'path' and len(e['args']) == 1 and e['f']['segs'][-1] == 'new' \
+                and e['f']['segs'][:-2] == ['arbitrary_int'] and not e['f'].get('leading_colon'):
+            at = arb_type(e['f']['segs'][-2])
+            if at and e['f']['segs'][-2].startswith('UInt<'):
+                ctor = '(Some (%d, %d))' % at
+                inner = e['args'][0]
+        if inner.get('e') == 'cast' and inner['x'].get('e') == 'path' and inner['x']['segs'] == ['self']:
+            m = re.fullmatch(r'u(\d+)', inner['ty'])
+            if m and rt:
+                cast = int(m.group(1))
+                raw_ret = rt
+                raw_ok = True
+    # new_with_raw_value
+    new_ok, new_param, ret_result, reader, arms, default = False, '(None, 0)', 'None', False, [], 'DefOther'
+    f = fns.get('new_with_raw_value')
+    if f and f['vis'] == 'pub' and f['const'] and not f['unsafe'] and len(f['params']) == 1 and f['params'][0].get('name') == 'value' \
+            and len(f['body']['stmts']) == 1 and f['body']['stmts'][0]['s'] == 'expr' and not f['body']['stmts'][0]['semi']:
+        e = f['body']['stmts'][0]['e']
+        pt = enum_ty(f['params'][0]['ty'])
+        ret = f['ret'] or ''
+        m = re.fullmatch(r'Result<Self,u(\d+)>', ret)
+        wraps = None
+        if m:
+            ret_result = '(Some %s)' % m.group(1)
+            wraps = True
+        elif ret == 'Self':
+            wraps = False
+        if e.get('e') == 'match' and pt and wraps is not None:
+            x = e['x']
+            okx = False
+            if x.get('e') == 'path' and x['segs'] == ['value']:
+                reader, okx = False, True
+            elif x.get('e') == 'mcall' and x['method'] == 'value' and x['args'] == [] and x['recv'].get('e') == 'path' \
+                    and x['recv']['segs'] == ['value']:
+                reader, okx = True, True
+            good = okx
+            for k, arm in enumerate(e['arms']):
+                last = k == len(e['arms']) - 1
+                pat = arm['pat']
+                if arm['guard'] is not None:
+                    good = False
+                    break
+                if pat['p'] == 'lit' and int_lit(pat['e']) is not None and not last:
+                    cfg = any(a['path'] == 'cfg' for a in arm['attrs'])
+                    if any(a['path'] != 'cfg' for a in arm['attrs']):
+                        good = False
+                    b = arm['body']
+                    wrapped = False
+                    if b.get('e') == 'call' and b['f'].get('e') == 'path' and b['f']['segs'] == ['Ok'] and len(b['args']) == 1:
+                        wrapped = True
+                        b = b['args'][0]
+                    if b.get('e') == 'path' and len(b['segs']) == 2 and b['segs'][0] == 'Self':
+                        arms.append('(%d, %s, %s, %s)' % (int_lit(pat['e']), cstr(b['segs'][1]), 'true' if wrapped else 'false',
+                                                          'true' if cfg else 'false'))
+                    else:
+                        good = False
+                elif last and not arm['attrs']:
+                    b = arm['body']
+                    if pat['p'] == 'ident' and pat['name'] == 'value' and b.get('e') == 'call' and b['f'].get('e') == 'path' \
+                            and b['f']['segs'] == ['Err'] and len(b['args']) == 1 and b['args'][0].get('e') == 'path' \
+                            and b['args'][0]['segs'] == ['value']:
+                        default = 'DefErr'
+                    elif pat['p'] == 'wild' and b.get('e') == 'macro' and b['path'] == ['unreachable'] and b['tokens'].strip() == '':
+                        default = 'DefUnreachable'
+                    else:
+                        good = False
+                else:
+                    good = False
+            if good:
+                new_ok = True
+                new_param = pt
+    b = lambda x: 'true' if x else 'false'
+    return '(mkEnumProg %s %s [%s] %s %s %d %s %s %s %s %s [%s] %s)' % (
+        cstr(name), b(derive), '; '.join(vs), b(raw_ok), ctor, cast, raw_ret, b(new_ok), new_param, ret_result, b(reader),
+        '; '.join(arms), default)
